@@ -687,13 +687,19 @@ func ruleG4(c *Ctx) {
 		return g != nil && (g.String() == "sort.Sort" || g.String() == "sort.Stable")
 	}
 	var sortM *ssa.Function
+	inline := false
 	for _, ci := range calls(f) {
+		if isSortCall(ci) {
+			// the sorting step written out in AdjustMounts itself
+			sortM, inline = f, true
+			continue
+		}
 		g := m.callee(ci.Common())
 		if g == nil || g.Pkg == nil || g.Pkg.Pkg.Path() != pkgGen || len(g.Blocks) == 0 {
 			continue
 		}
 		for _, ci2 := range calls(g) {
-			if isSortCall(ci2) {
+			if isSortCall(ci2) && !inline {
 				sortM = g
 			}
 		}
@@ -708,7 +714,7 @@ func ruleG4(c *Ctx) {
 		if g == nil {
 			continue
 		}
-		if g == sortM {
+		if g == sortM || (inline && isSortCall(ci)) {
 			sorts = append(sorts, ci)
 		}
 		if isGeneratorMethod(g) && genEffect(m, g, 0)["Mounts"]&effInsert != 0 && g != sortM {
